@@ -80,6 +80,14 @@ ENGINES="vrun enum_c13 enum_c15 enum_c12 enum_c17 mpartmc cutmc statemc faultmc 
 HXSRC=$(ls "$HERE"/*.c "$HERE"/*.h)
 HKEY=$( (echo "$KEY $CC $CFL"; cat $HXSRC) | sha1sum | cut -c1-16)
 WRAP="-Wl,--wrap=malloc,--wrap=calloc,--wrap=realloc,--wrap=free,--wrap=strdup,--wrap=gettimeofday,--wrap=inflateInit2_"
+if [ "$FLAV" = tsan ]; then
+  # free-running race pass: self-contained harness, no allocator wrappers, everything instrumented
+  if [ "$(cat "$OUT/.hxkey" 2>/dev/null || true)" != "$HKEY" ]; then
+    $CC $CFL $DEFS $INCS -Wall -Wno-unused-function "$HERE/tsanrun.c" "$OUT/libhtp_v.a" -o "$OUT/tsanrun" -lz -lpthread
+    echo "$HKEY" > "$OUT/.hxkey"
+  fi
+  echo "$OUT"; exit 0
+fi
 if [ "$(cat "$OUT/.hxkey" 2>/dev/null || true)" != "$HKEY" ]; then
   HCFL=$CFL
   # the work meter must not meter the harness itself
